@@ -20,7 +20,9 @@ def all_inputs(alphabet, maxlen, mode='text'):
 
 # -------------------------------------------------------------------------- core leaves
 
-RX_POOL = ['a+', '[ab]', 'a|ab', 'b?a', '(?:ab)+', 'a*', 'b?']
+# (patterns that coincide textually with the case-insensitive literals below - 'A', 'aB', 'b', 'ab' -
+# are in the pool on purpose: anything keyed by pattern text alone confuses the two)
+RX_POOL = ['a+', '[ab]', 'a|ab', 'b?a', '(?:ab)+', 'a*', 'b?', 'A', 'aB', 'b', 'ab']
 
 HELPER_RULES = [
     ('rule', 'RA', None, ('lit', 'a')),
@@ -33,7 +35,7 @@ HELPER_NULLABLE = {'RA': False, 'RAB': False, 'RBS': False}
 def core_leaves(mode='text'):
     leaves = [
         ('lit', 'a'), ('lit', 'b'), ('lit', 'ab'), ('lit', ''),
-        ('ci', 'A'),
+        ('ci', 'A'), ('rx', 'A'),
         ('rx', 'a+'), ('rx', 'b?a'), ('rx', 'a|ab'), ('rx', 'a*'),
         ('ref', 'RA'), ('ref', 'RAB'),
         ('fail', None), ('backtrack', 1),
@@ -186,7 +188,7 @@ def core_expr(draw, depth, names_later, names_any, allow_backtrack, mode, rules_
         if k == 'rx':
             return ('rx', draw(st.sampled_from(RX_POOL)))
         if k == 'ci':
-            return ('ci', draw(st.sampled_from(['A', 'aB', 'b'])))
+            return ('ci', draw(st.sampled_from(['A', 'aB', 'b', 'ab'])))
         if k == 'fail':
             return ('fail', draw(st.sampled_from([None, 'nope'])))
         if k == 'backtrack':
